@@ -164,6 +164,15 @@ class Ctx:
         self.violations.append((path, kind, detail))
         return True
 
+    def known(self, fid, scenario=None):
+        """An instance of a listed open finding (recognised through its deviation, DESIGN 4.6)."""
+        for f in self.findings:
+            if f["id"] == fid and f.get("status") == "open":
+                self.known_hits.setdefault(fid, [f, 0])[1] += 1
+                return True
+        self.violation("unlisted_finding", scenario, None, "behaviour explained only by deviation %s, which is not an open finding" % fid)
+        return False
+
     def finish(self, rule, assumptions=()):
         wall = time.time() - self.t0
         nontriv = sum(self.nontrivial.values())
